@@ -433,3 +433,161 @@ Proof.
     rewrite Nat.sub_0_r in Hx. exists l. now split.
   - intros (l & Hl & ->). exists (l, c). split; [reflexivity|]. apply in_combine_seq. rewrite Nat.sub_0_r. split; [lia|assumption].
 Qed.
+
+(* ============================================================================================== *)
+(* 7. the bands: one voter, the placement of all runs                                              *)
+(* ============================================================================================== *)
+Section Bands.
+Variable alt : N -> Q.
+Variables xl xr delta : Q.
+Variable m : nat.
+Variable p : Q.                       (* the voter's position *)
+Variable r : list N.                  (* the voter's ranking *)
+Variable col : N -> bool.             (* coloured = placed by the LP *)
+
+Hypothesis Hd : 0 < delta.
+Hypothesis Hm : (0 < m)%nat.
+Hypothesis Hpl : xl <= p.
+Hypothesis Hpr : p <= xr.
+Hypothesis Hxr : xr - p <= delta.
+Hypothesis Hdist : forall c, col c = true -> qdist p (alt c) <= delta.
+Hypothesis Hlp : forall a b, col a = true -> col b = true -> before r a b = true ->
+                             qdist p (alt a) < qdist p (alt b).
+
+Definition outside (c : N) : Prop := alt c < xl \/ xr < alt c.
+
+Definition wf_runs (runs : list (bool * list N)) : Prop :=
+  Forall (fun run => (forall c, In c (snd run) -> col c = fst run) /\
+                     (fst run = false -> (length (snd run) <= m)%nat /\
+                                         StronglySorted (fun a b => before r a b = true) (snd run))) runs.
+
+Definition all_out (runs : list (bool * list N)) : Prop :=
+  forall run, In run runs -> fst run = true -> forall c, In c (snd run) -> outside c.
+
+Definition outs (i : nat) (runs : list (bool * list N)) : Prop :=
+  match runs with
+  | [] => True
+  | (true, rk) :: rest => (i = 0%nat \/ forall c, In c rk -> outside c) /\ all_out rest
+  | (false, _) :: rest => all_out rest
+  end.
+
+Fixpoint cross (runs : list (bool * list N)) : Prop :=
+  match runs with
+  | [] => True
+  | run :: rest => (forall a b, In a (snd run) -> In b (concat (map snd rest)) -> before r a b = true) /\ cross rest
+  end.
+
+Lemma all_out_outs i runs : all_out runs -> outs i runs.
+Proof.
+  intros H. destruct runs as [|[[|] rk] rest]; cbn; [exact I| |].
+  - split; [right; intros c Hc; apply (H (true, rk)); [now left|reflexivity|assumption]|].
+    intros run Hr. apply H. now right.
+  - intros run Hr. apply H. now right.
+Qed.
+
+Lemma scale_nonneg i : 0 <= 8 * qnat i * delta.
+Proof. apply Qmult_le_0_compat; [|lra]. pose proof (qnat_nonneg i). lra. Qed.
+
+Lemma F_dist_eq i c : i = 0%nat \/ outside c ->
+  qdist p (Fval alt xl delta i c) == qdist p (alt c) + 8 * qnat i * delta.
+Proof.
+  intros H. destruct i as [|i].
+  - cbn [Fval]. change (qnat 0) with 0. ring.
+  - destruct H as [H|H]; [discriminate|]. cbn [Fval]. apply (shift_dist p (alt c) xl xr); try assumption.
+    apply scale_nonneg.
+Qed.
+
+Lemma G_dist_eq i l : qdist p (Gval xr delta m i l) == Gval xr delta m i l - p /\
+  ((l < m)%nat -> (8 * qnat i + 6) * delta <= Gval xr delta m i l - p /\
+                  Gval xr delta m i l - p < (8 * qnat i + 8) * delta).
+Proof.
+  assert (Hf0 : 0 <= (qnat l / qnat m) * delta).
+  { apply Qmult_le_0_compat; [|lra]. apply Qle_shift_div_l; [apply (qnat_lt 0 m Hm)|].
+    pose proof (qnat_nonneg l). lra. }
+  assert (Hs : 0 <= (8 * qnat i + 6) * delta).
+  { apply Qmult_le_0_compat; [|lra]. pose proof (qnat_nonneg i). lra. }
+  split.
+  - apply (right_dist p xr); [assumption|]. unfold Gval. lra.
+  - intros Hl. destruct (qnat_frac l m Hl) as (H0 & H1).
+    destruct (Qmult_frac_bounds _ _ H0 H1 Hd) as (Ha & Hb). unfold Gval. split; lra.
+Qed.
+
+Lemma wf_runs_tail run rest : wf_runs (run :: rest) -> wf_runs rest.
+Proof. intros H. now inversion H. Qed.
+
+Lemma band_lower runs : forall i, wf_runs runs -> outs i runs ->
+  forall c q, In (c, q) (place_r alt xl xr delta m i runs) -> 8 * qnat i * delta <= qdist p q.
+Proof.
+  induction runs as [|[fl rk] rest IH]; intros i Hwf Ho c q Hin; [destruct Hin|].
+  pose proof (wf_runs_tail _ _ Hwf) as Hwf'. inversion Hwf as [|? ? (Hcol & Hg) _]; subst. cbn [fst snd] in *.
+  destruct fl; cbn [place_r] in Hin; apply in_app_or in Hin; destruct Hin as [Hin|Hin].
+  - apply in_Fpart in Hin. destruct Hin as (Hc & ->). destruct Ho as (Ho & _).
+    rewrite F_dist_eq; [|destruct Ho as [Ho|Ho]; [now left|right; now apply Ho]].
+    unfold qdist. pose proof (Qabs_nonneg (p - alt c)). lra.
+  - refine (IH i Hwf' _ c q Hin). apply all_out_outs. exact (proj2 Ho).
+  - apply in_Gpart in Hin. destruct Hin as (l & Hl & ->). destruct (Hg eq_refl) as (Hlen & _).
+    assert (Hlm : (l < m)%nat) by (assert (l < length rk)%nat by (apply nth_error_Some; congruence); lia).
+    destruct (G_dist_eq i l) as (E & Hb). rewrite E. destruct (Hb Hlm). pose proof (scale_nonneg i). lra.
+  - assert (H8 : 8 * qnat (S i) * delta <= qdist p q).
+    { refine (IH (S i) Hwf' _ c q Hin). apply all_out_outs. exact Ho. }
+    rewrite qnat_S in H8. lra.
+Qed.
+
+Lemma band_lower_G rk rest i : wf_runs ((false, rk) :: rest) -> all_out rest ->
+  forall c q, In (c, q) (place_r alt xl xr delta m i ((false, rk) :: rest)) -> (8 * qnat i + 6) * delta <= qdist p q.
+Proof.
+  intros Hwf Ho c q Hin. pose proof (wf_runs_tail _ _ Hwf) as Hwf'.
+  inversion Hwf as [|? ? (Hcol & Hg) _]; subst. cbn [fst snd] in *.
+  cbn [place_r] in Hin. apply in_app_or in Hin. destruct Hin as [Hin|Hin].
+  - apply in_Gpart in Hin. destruct Hin as (l & Hl & ->). destruct (Hg eq_refl) as (Hlen & _).
+    assert (Hlm : (l < m)%nat) by (assert (l < length rk)%nat by (apply nth_error_Some; congruence); lia).
+    destruct (G_dist_eq i l) as (E & Hb). rewrite E. destruct (Hb Hlm). lra.
+  - pose proof (band_lower rest (S i) Hwf' (all_out_outs _ _ Ho) c q Hin) as H8. rewrite qnat_S in H8. lra.
+Qed.
+
+Lemma in_place_keys runs i c q : In (c, q) (place_r alt xl xr delta m i runs) -> In c (concat (map snd runs)).
+Proof. intros H. rewrite <- (place_r_keys alt xl xr delta m runs i). apply (in_map fst) in H. exact H. Qed.
+
+(* the whole placement orders the alternatives as the voter does *)
+Lemma band_order runs : forall i b, alt_from b runs -> wf_runs runs -> outs i runs -> cross runs ->
+  forall a qa b' qb, In (a, qa) (place_r alt xl xr delta m i runs) -> In (b', qb) (place_r alt xl xr delta m i runs) ->
+    before r a b' = true -> qdist p qa < qdist p qb.
+Proof.
+  induction runs as [|[fl rk] rest IH]; intros i b Halt Hwf Ho Hcross a qa b' qb Ha Hb Hbef; [destruct Ha|].
+  destruct Hcross as (Hcr & Hcr').
+  pose proof (wf_runs_tail _ _ Hwf) as Hwf'. inversion Hwf as [|? ? (Hcol & Hg) _]; subst. cbn [fst snd] in *.
+  destruct Halt as (Hb0 & Halt'). cbn [fst] in Hb0. subst b.
+  destruct fl; cbn [place_r] in Ha, Hb; apply in_app_or in Ha; apply in_app_or in Hb.
+  - destruct Ho as (Ho & Hao).
+    assert (HF : forall c, In c rk -> qdist p (Fval alt xl delta i c) == qdist p (alt c) + 8 * qnat i * delta).
+    { intros c Hc. apply F_dist_eq. destruct Ho as [Ho|Ho]; [now left|right; now apply Ho]. }
+    destruct Ha as [Ha|Ha], Hb as [Hb|Hb].
+    + apply in_Fpart in Ha, Hb. destruct Ha as (Ha & ->), Hb as (Hb & ->). rewrite (HF a Ha), (HF b' Hb).
+      pose proof (Hlp a b' (Hcol a Ha) (Hcol b' Hb) Hbef). lra.
+    + apply in_Fpart in Ha. destruct Ha as (Ha & ->). rewrite (HF a Ha).
+      pose proof (Hdist a (Hcol a Ha)) as Hda.
+      destruct rest as [|[[|] rk2] rest2]; [destruct Hb| |].
+      * destruct Halt' as (Hfl & _). cbn in Hfl. discriminate.
+      * pose proof (band_lower_G rk2 rest2 i Hwf' (fun run Hr => Hao run (or_intror Hr)) b' qb Hb). lra.
+    + exfalso. apply in_Fpart in Hb. destruct Hb as (Hb & _). apply in_place_keys in Ha.
+      rewrite (before_asym _ _ _ (Hcr b' a Hb Ha)) in Hbef. discriminate.
+    + exact (IH i _ Halt' Hwf' (all_out_outs _ _ Hao) Hcr' a qa b' qb Ha Hb Hbef).
+  - destruct (Hg eq_refl) as (Hlen & Hsort).
+    destruct Ha as [Ha|Ha], Hb as [Hb|Hb].
+    + apply in_Gpart in Ha, Hb. destruct Ha as (la & Hla & ->), Hb as (lb & Hlb & ->).
+      destruct (G_dist_eq i la) as (Ea & _), (G_dist_eq i lb) as (Eb & _). rewrite Ea, Eb.
+      destruct (lt_eq_lt_dec la lb) as [[Hlt|Heq]|Hgt].
+      * unfold Gval. pose proof (qnat_frac_lt la lb m Hlt Hm) as Hf.
+        assert ((qnat la / qnat m) * delta < (qnat lb / qnat m) * delta) by (apply Qmult_lt_compat_r; assumption). lra.
+      * subst lb. rewrite Hla in Hlb. injection Hlb as <-. rewrite before_irrefl in Hbef. discriminate.
+      * exfalso. pose proof (proj1 (SS_nth _ rk) Hsort lb la b' a Hgt Hlb Hla) as Hba. cbn beta in Hba.
+        rewrite (before_asym _ _ _ Hba) in Hbef. discriminate.
+    + apply in_Gpart in Ha. destruct Ha as (la & Hla & ->).
+      assert (Hlm : (la < m)%nat) by (assert (la < length rk)%nat by (apply nth_error_Some; congruence); lia).
+      destruct (G_dist_eq i la) as (Ea & Hba). rewrite Ea. destruct (Hba Hlm) as (_ & Hup).
+      pose proof (band_lower rest (S i) Hwf' (all_out_outs _ _ Ho) b' qb Hb) as H8. rewrite qnat_S in H8. lra.
+    + exfalso. apply in_Gpart in Hb. destruct Hb as (lb & Hlb & _). apply in_place_keys in Ha.
+      rewrite (before_asym _ _ _ (Hcr b' a (nth_error_In _ _ Hlb) Ha)) in Hbef. discriminate.
+    + exact (IH (S i) _ Halt' Hwf' (all_out_outs _ _ Ho) Hcr' a qa b' qb Ha Hb Hbef).
+Qed.
+End Bands.
